@@ -24,7 +24,7 @@ import (
 	"pgregory.net/rapid"
 )
 
-var vfC07Attacks = []string{"extra-answer", "extra-additional", "authority-ns-victim", "cname-in-message", "dname-in-message", "upward-referral", "sideways-referral", "offpath-referral", "offpath-deep-referral", "offpath-deep-referral", "self-referral",
+var vfC07Attacks = []string{"extra-answer", "extra-additional", "authority-ns-victim", "cname-in-message", "dname-in-message", "dname-above-zone", "upward-referral", "sideways-referral", "offpath-referral", "offpath-deep-referral", "offpath-deep-referral", "self-referral",
 	"mixed-owner-referral", "long-chain-in-message", "glue-out-of-zone", "glue-lookalike", "glue-unroutable", "wrong-id-first", "wrong-question-first", "wrong-question-error", "wrong-question-error", "chaos-referral", "victim-soa-negative", "ns-in-answer"}
 
 type vfC07Step struct {
@@ -109,6 +109,23 @@ func vfC07Decorate(c *vfC07Case, attack string, n int, evilIP string, req, resp 
 		resp.Rcode, resp.Ns = dns.RcodeSuccess, nil
 		resp.Answer = []dns.RR{&dns.CNAME{Hdr: dns.RR_Header{Name: q.Name, Rrtype: dns.TypeCNAME, Class: dns.ClassINET, Ttl: 3600}, Target: www},
 			&dns.DNAME{Hdr: dns.RR_Header{Name: v, Rrtype: dns.TypeDNAME, Class: dns.ClassINET, Ttl: 3600}, Target: vfC07Evil}, vfC07A(www, vfC07Marker(5))}
+	case "dname-above-zone":
+		// a DNAME owned by an ancestor of the attacker's zone (its parent, or the root), redirecting the whole
+		// subtree - with the CNAME a server synthesises from it for the name that was asked
+		parent := strings.SplitN(vfC07Evil, ".", 2)[1]
+		if n%2 == 0 || parent == "" {
+			parent = "."
+		}
+		if rest := strings.TrimSuffix(strings.ToLower(q.Name), "."+parent); parent != "." && rest != strings.ToLower(q.Name) || parent == "." {
+			prefix := strings.TrimSuffix(strings.TrimSuffix(q.Name, parent), ".")
+			if parent == "." {
+				prefix = strings.TrimSuffix(q.Name, ".")
+			}
+			target := "moved." + v
+			resp.Rcode, resp.Ns = dns.RcodeSuccess, nil
+			resp.Answer = []dns.RR{&dns.DNAME{Hdr: dns.RR_Header{Name: parent, Rrtype: dns.TypeDNAME, Class: dns.ClassINET, Ttl: 3600}, Target: target},
+				&dns.CNAME{Hdr: dns.RR_Header{Name: q.Name, Rrtype: dns.TypeCNAME, Class: dns.ClassINET, Ttl: 3600}, Target: prefix + "." + target}}
+		}
 	case "upward-referral":
 		referral(vfC07NS("test.", "ns1."+vfC07Evil))
 		resp.Extra = append([]dns.RR{vfC07A("ns1."+vfC07Evil, eip)}, keepOPT()...)
@@ -152,7 +169,11 @@ func vfC07Decorate(c *vfC07Case, attack string, n int, evilIP string, req, resp 
 		resp.Extra = append([]dns.RR{vfC07A("ns9.x"+vfC07Evil, eip)}, keepOPT()...)
 	case "glue-unroutable":
 		referral(vfC07NS("sub."+vfC07Evil, "ns1.sub."+vfC07Evil), vfC07NS("sub."+vfC07Evil, "ns2.sub."+vfC07Evil))
-		resp.Extra = append([]dns.RR{vfC07A("ns1.sub."+vfC07Evil, net.IPv4(127, 0, 0, 1).To4()), vfC07A("ns2.sub."+vfC07Evil, net.IPv4(127, 0, 0, 53).To4())}, keepOPT()...)
+		first := net.IPv4(127, 0, 0, 1).To4()
+		if n%2 == 0 {
+			first = net.IPv4zero.To4() // the unspecified address reaches the local host just as well
+		}
+		resp.Extra = append([]dns.RR{vfC07A("ns1.sub."+vfC07Evil, first), vfC07A("ns2.sub."+vfC07Evil, net.IPv4(127, 0, 0, 53).To4())}, keepOPT()...)
 	case "chaos-referral":
 		ns := vfC07NS(v, "ns1."+vfC07Evil)
 		ns.Header().Class = dns.ClassCHAOS
